@@ -43,6 +43,12 @@ func c15Alphabet(thorough bool, withBatchGet bool) func(m *model.Model) []drv.Op
 			add("BatchWrite(3b)", drv.Op{K: drv.KBatchWrite, Batch: []drv.BWReq{{Table: "tbb", Del: k1.Clone()}, {Table: "tbb", Put: with(k2, "a", val.S("b4"))}, {Table: "tba", Del: k2.Clone()}}})
 			add("PutB", drv.Op{K: drv.KPut, Table: "tbb", Item: with(k2, "a", val.S("one"))})
 		}
+		// requests that repeat a key (only while a failure is active: what such a batch does when it
+		// succeeds belongs to C19): every request comes back, none is merged away
+		if m.Fail != "" {
+			add("BatchWrite(same key twice)", drv.Op{K: drv.KBatchWrite, Batch: []drv.BWReq{{Table: "tba", Put: with(k1, "a", val.S("d1"))}, {Table: "tba", Put: with(k1, "a", val.S("d2"))}}})
+			add("BatchWrite(put, delete, put of one key)", drv.Op{K: drv.KBatchWrite, Batch: []drv.BWReq{{Table: "tba", Put: with(k1, "a", val.S("d1"))}, {Table: "tba", Del: k1.Clone()}, {Table: "tbb", Put: with(k2, "a", val.S("d3"))}, {Table: "tba", Put: with(k1, "a", val.S("d2"))}}})
+		}
 		// BatchGetItem is exercised only while a failure is active (its success path, including the
 		// absent-keys finding, belongs to C19)
 		if withBatchGet && m.Fail != "" {
@@ -74,7 +80,7 @@ func C15(run *ev.Run, tier string) map[string]interface{} {
 	})
 	cov := total.Coverage()
 	cov["per_system"] = per
-	cov["alphabet"] = "EmulateFailure(internal_server | deprecated | none), ActiveForceFailure, DeactiveForceFailure x Put, Upd, Del, Get, Query, Scan, TransactWriteItems, BatchWriteItem of 1-3 requests over two tables (present and absent keys), BatchGetItem; two keys; both SDK adapters"
+	cov["alphabet"] = "EmulateFailure(internal_server | deprecated | none), ActiveForceFailure, DeactiveForceFailure x Put, Upd, Del, Get, Query, Scan, TransactWriteItems, BatchWriteItem of 1-3 requests over two tables (present and absent keys) and, while a failure is active, batches that repeat a key, BatchGetItem; two keys; both SDK adapters"
 	cov["oracle"] = "while a condition is active: every data call returns the configured error class (ForcedFailure sentinel by identity, InternalServerError) and the model does not change; BatchWriteItem under internal-server failure returns every request in UnprocessedItems and applies none; after deactivation the implementation is in lock-step with the model that never saw the failing calls (full observation after every transition, observation reads themselves must fail with the configured error while active)"
 	return cov
 }
